@@ -22,7 +22,9 @@ dMix == JArr(<<JObj(<<cA>>, <<JInt(1)>>), JObj(<<cA>>, <<JInt(2)>>), JArr(<<JInt
 dSet == JObj(<<<<101>>, cL, cX, cY>>, <<JArr(<<JStr(cA), JStr(cB), JStr(cC)>>), JArr(<<JStr(cA), JStr(cB)>>),
                                        JArr(<<JArr(<<JInt(1), JInt(2)>>), JArr(<<JInt(3)>>), JObj(<<cA>>, <<JInt(1)>>)>>), JArr(<<JInt(1), JInt(2)>>)>>)          \* {"e":[1,2,3],"l":[1,2]}
 dEmpty == JObj(<<<<100>>, <<105>>>>, <<JObj(<<cA>>, <<JObj(<<cA>>, <<JObj(<<cA>>, <<JInt(1)>>)>>)>>), JArr(<<>>)>>)     \* {"d":{"a":{"a":{"a":1}}},"i":[]}
-Docs0 == <<dStr, dObj, dMix, dSet, dEmpty>>
+Wide(off) == JObj([i \in 1..17 |-> <<97 + i - 1, 48 + off>>], [i \in 1..17 |-> JInt(i + off)])      \* {"a0":1,...,"q0":17} / {"a1":2,...}
+dWide == JObj(<<<<111>>, <<112>>>>, <<Wide(0), JArr(<<Wide(0), JInt(1)>>)>>)                               \* {"o": wide, "p": [wide, 1]}
+Docs0 == <<dStr, dObj, dMix, dSet, dEmpty, dWide>>
 
 Pat1 == <<97, 124, 98>>        \* a|b      : match and search differ on "xab", "ba", "ab"
 Pat2 == <<97, 46, 42>>         \* a.*
@@ -34,7 +36,9 @@ SQ == << Re("match", Pat1), Re("search", Pat1), Re("match", Pat2), Re("search", 
          <<N1(<<101>>), Child(<<SFilter(LTest(FALSE, EFn("in", <<ERel(<<>>), EAbs(<<N1(cL)>>)>>)))>>)>>,           \* 12: $.e[?in(@, $.l)]
          <<N1(<<105>>), Desc(<<SName(cA)>>)>>,                                                                       \* 13: $.i..a   (.. applied to an empty array)
          <<Desc(<<SName(cA)>>)>>,                                                                                   \* 14: $..a
-         <<N1(cX), Child(<<SFilter(LCmp("==", ERel(<<>>), EAbs(<<N1(cY)>>)))>>)>> >>                                  \* 15: $.x[?@ == $.y]   container equality                                                                                  \* 14: $..a
+         <<N1(cX), Child(<<SFilter(LCmp("==", ERel(<<>>), EAbs(<<N1(cY)>>)))>>)>>,
+         <<N1(<<111>>), Child(<<SWild>>)>>,                                                                          \* 16: $.o.*     (17 members)
+         <<Desc(<<SFilter(LCmp(">", ERel(<<>>), ELit(JInt(16))))>>)>> >>                                              \* 17: $..[?@ > 16]                                  \* 15: $.x[?@ == $.y]   container equality                                                                                  \* 14: $..a
 \* strings that are NOT queries (grammar errors and errors found after the grammar: typing, arity): a call with one of them
 \* returns an error - and leaves nothing behind that a later call could notice
 BadQ == << <<36, 91, 63, 99, 111, 117, 110, 116, 40, 49, 41, 32, 62, 32, 48, 93>>,
@@ -68,6 +72,7 @@ Ops == << Ev("query", 1, 1), Ev("prepared", 2, 1), Ev("query_only_path", 2, 1), 
           Wr(2, <<>>, JArr(<<JObj(<<cA>>, <<JInt(1)>>)>>)),                                   \* replaces the whole document in place: $.b disappears
           Wr(4, <<NameStep(cL), IdxStep(0)>>, JStr(cC)),                                     \* changes the list the membership test reads
           Ev("prepared", 15, 4), Ev("query", 15, 4), Wr(4, <<NameStep(cY), IdxStep(0)>>, JInt(3)), Wr(4, <<NameStep(cX), IdxStep(1), IdxStep(0)>>, JInt(1)),
+          Ev("query_with_path", 16, 6), Ev("query_only_path", 16, 6), Ev("prepared", 17, 6), Wr(6, <<NameStep(<<111>>)>>, Wide(1)), Wr(6, <<NameStep(<<112>>), IdxStep(0)>>, Wide(1)),
           Bad("query", 1, 2), Bad("prepared", 2, 3), Bad("query_with_path", 3, 1), Bad("query_only_path", 4, 3), Bad("query", 5, 2), Bad("prepared", 6, 1),
           Bad("query_with_path", 7, 3), Bad("query", 8, 2), Bad("query", 9, 2), Bad("prepared", 10, 2), Bad("query_with_path", 11, 3), Bad("query_only_path", 12, 1) >>                                     \* changes the list the membership test reads
 Progs == [i \in 1..Len(Ops) |-> <<Ops[i]>>] \o Cross2(Ops, Ops, LAMBDA a, b : <<a, b>>)
